@@ -8,3 +8,4 @@ ASSUMPTIONS = ["A-LIB: TensorFlow's random number generator delivers independent
                "A-MATH: Raubold-Lynch - the product of break-up momenta is the Lorentz-invariant phase-space density in the sequential-mass coordinates"]
 
 from vt.contracts import iface_gen  # noqa: F401,E402
+from vt.contracts import loops  # noqa: F401,E402
